@@ -48,16 +48,23 @@ class CheckState(object):
                 self.distinct[check["desc"]] = set()
 
     def check_row(self, row, line):
-        """None if all checks pass, else ("check", desc, see_also_line)."""
+        """None if all checks pass, else ("check", desc, see_also_line).
+
+        The statement's reading: a key counts as seen only when its row was ACCEPTED ("an earlier accepted row ... has
+        the same values"), so the keys of a row are registered once no uniqueness check has vetoed it; a distinct-count
+        check counts every row that reaches it (all checks declared before it passed)."""
+        pending = []
         for check in self.checks:
             if check["type"] == "IsUnique":
                 key = tuple(row[self.names.index(name)] for name in check["keys"])
                 seen = self.unique[check["desc"]]
                 if key in seen:
                     return ("check", check["desc"], seen[key])
-                seen[key] = line
+                pending.append((seen, key))
             else:
                 self.distinct[check["desc"]].add(row[self.names.index(check["field"])])
+        for seen, key in pending:
+            seen[key] = line
         return None
 
     def at_end(self):
